@@ -348,24 +348,60 @@ func evalPkg(run *ev.Run, c *Case, binary bool) string {
 	}
 	done := make(chan error, 1)
 	go func() { done <- cmd.Wait() }()
-	select {
-	case err := <-done:
-		code := 0
-		if ee, ok := err.(*exec.ExitError); ok {
-			code = ee.ExitCode()
-		} else if err != nil {
-			run.HarnessError("%v", err)
+	// A hang is decided on CPU time, not on wall-clock time: a lox process that has been running
+	// for two minutes AND has itself burnt a minute of CPU is spinning; one that is merely kept
+	// off the processor by a loaded machine (or waits for a slow `go list`) is not, and if it is
+	// still not done after 15 minutes the case is inconclusive, never a violation.
+	t0 := time.Now()
+	for {
+		select {
+		case err := <-done:
+			code := 0
+			if ee, ok := err.(*exec.ExitError); ok {
+				code = ee.ExitCode()
+			} else if err != nil {
+				run.HarnessError("%v", err)
+			}
+			run.Class(fmt.Sprintf("binary-exit:%d", code))
+			if strings.Contains(se.String(), "goroutine ") && strings.Contains(se.String(), "panic") {
+				return fmt.Sprintf("lox binary panicked (exit %d) at %s: %s", code, topRepoFrame(se.String()), firstLine(se.String()))
+			}
+			return checkOutputs(dir, code == 0, se.String())
+		case <-time.After(2 * time.Second):
 		}
-		run.Class(fmt.Sprintf("binary-exit:%d", code))
-		if strings.Contains(se.String(), "goroutine ") && strings.Contains(se.String(), "panic") {
-			return fmt.Sprintf("lox binary panicked (exit %d) at %s: %s", code, topRepoFrame(se.String()), firstLine(se.String()))
+		wall := time.Since(t0)
+		if wall >= 120*time.Second && procCPU(cmd.Process.Pid) >= 60*time.Second {
+			cmd.Process.Kill()
+			<-done
+			return "hang: the lox binary did not finish within 120 s and burnt more than 60 s of CPU time itself"
 		}
-		return checkOutputs(dir, code == 0, se.String())
-	case <-time.After(120 * time.Second):
-		cmd.Process.Kill()
-		<-done
-		return "hang: the lox binary did not finish within 120 s"
+		if wall >= 15*time.Minute {
+			cmd.Process.Kill()
+			<-done
+			run.Inconclusive("lox binary not finished after 15 minutes without using CPU (stalled machine or go list)")
+			return ""
+		}
 	}
+}
+
+// procCPU reads the CPU time (user+system) a process has consumed from /proc/<pid>/stat.
+func procCPU(pid int) time.Duration {
+	b, err := os.ReadFile(fmt.Sprintf("/proc/%d/stat", pid))
+	if err != nil {
+		return 0
+	}
+	s := string(b)
+	if i := strings.LastIndexByte(s, ')'); i >= 0 {
+		s = s[i+1:]
+	}
+	f := strings.Fields(s) // f[0] = state, utime = field 14 overall = f[11], stime = f[12]
+	if len(f) < 13 {
+		return 0
+	}
+	var ut, st int64
+	fmt.Sscan(f[11], &ut)
+	fmt.Sscan(f[12], &st)
+	return time.Duration(ut+st) * (time.Second / 100)
 }
 
 // ---- Go package configurations ----------------------------------------------------------
@@ -543,9 +579,9 @@ func TestC12(t *testing.T) {
 	defer run.Finish(t)
 	run.Rule = "(i) .lox texts: every grammar file, example and documentation snippet of the repository, generated grammars and lexer specs (all features) and hostile constants, pushed through 1-4 text-level mutations (delete/duplicate/transpose/insert/replace tokens and lines, splice two specs, truncate, numeric extremes in @left(n), 200-3000-term lines, NUL / invalid UTF-8 / surrogate bytes), as 1-2 files, through the in-process front end (parse, analyse, LALR construction, rendering of the --report text) under recover; " +
 		"(ii) 30 Go-package configurations (no Go file, syntax error, ill-typed, no Token, no / two / generic / pointer-embedded parser struct, only _test.go, only build-tag-excluded files, directory outside any module, stale foreign *.gen.go, missing / ambiguous / orphan / ill-shaped actions, two packages, overlapping rules in two .lox files, ...) and generated grammars with matching actions, and packages composed from alphabets of odd Go declarations (Token / parser struct / element type / Discard member / action signature / _onBounds shapes around a grammar using every sugar), through the real codegen.Generate with the real `go list`, 1 in 4 also through the lox binary; (iii) thorough tier: native go fuzzing of the front end. " +
-		"oracle: success => the three files exist, are non-empty and parse as Go; failure => at least one diagnostic line; a panic is a violation identified by its first frame inside the repository; a run over 30 s is re-run in a subprocess under a 120 s guard before it is called a hang. " +
+		"oracle: success => the three files exist, are non-empty and parse as Go; failure => at least one diagnostic line; a panic is a violation identified by its first frame inside the repository; a run over 30 s is re-run in a subprocess, which is called a hang only when it is still running after 120 s and has itself burnt more than 60 s of CPU time. " +
 		"non-trivial = case that gets past the front-end lexer/parser, or a package configuration; distinct by (outcome class, first diagnostic with names and numbers blanked)"
-	run.Assumptions = []string{"30 s in-process / 120 s subprocess guards are 4-5 orders of magnitude above normal running time; a hit is only called a hang after the second, independent run"}
+	run.Assumptions = []string{"the in-process 30 s guard only selects cases for the subprocess run; a hang verdict needs 120 s wall-clock and 60 s of CPU time of the lox process itself (4-5 orders of magnitude above normal), so a loaded machine cannot produce one"}
 	report := func(c *Case, d string) {
 		c.Detail = d
 		run.Violation(d, c)
